@@ -2,6 +2,7 @@ import AtreeModel.Dump
 import AtreeModel.StorageOps
 import AtreeModel.Replay.Common
 import AtreeModel.Verify.Corrupt
+import AtreeModel.Replay.ArrBranch
 /-
   Replays the array stream of the harness on the model and compares every observation,
   net storage effect, stored-slab dump and periodic full-tree dump with the implementation's.
@@ -78,6 +79,9 @@ def listStr (l : List Elem) : String := "[" ++ ",".intercalate (l.map Dump.elem)
 
 def note (s : ArrState) (msg : String) : ArrState := { s with rep := s.rep.mismatch msg }
 
+def tagAll (s : ArrState) (ts : List String) : ArrState :=
+  if ts.isEmpty then s else { s with rep := ts.foldl (fun r t => r.tag t) s.rep }
+
 /-- apply one `OP` line -/
 def applyOp (s : ArrState) (name : String) (fs : List (String × String)) (lineNo : Nat) : ArrState :=
   let h := (fnat fs "h").getD 0
@@ -94,7 +98,10 @@ def applyOp (s : ArrState) (name : String) (fs : List (String × String)) (lineN
       | none => s.note s!"line {lineNo}: bad value"
       | some v =>
         match (if name == "app" then a.append s.T v c else a.insert s.T i v c) with
-        | .ok (a', c') => s.commit h a' c' "OBS ok"
+        | .ok (a', c') =>
+          -- branch tags of the model's run (index-level split, root split); see ArrBranch.lean
+          let s := s.tagAll (ArrBranch.arrInsertTags s.T a (if name == "app" then a.count else i) v a')
+          s.commit h a' c' "OBS ok"
         | .error e => { s with pending := ["OBS err:" ++ Dump.aerr e, "EFF -"] }
     | "set" =>
       match val with
@@ -105,7 +112,10 @@ def applyOp (s : ArrState) (name : String) (fs : List (String × String)) (lineN
         | .error e => { s with pending := ["OBS err:" ++ Dump.aerr e, "EFF -"] }
     | "rem" =>
       match a.remove s.T i c with
-      | .ok (old, a', c') => s.commit h a' c' ("OBS ok:" ++ Dump.elem old)
+      | .ok (old, a', c') =>
+        -- branch tags of the model's run (index-slab merge / lend / borrow, boundary decisions, root promotion)
+        let s := s.tagAll (ArrBranch.arrRemoveTags s.T a i a')
+        s.commit h a' c' ("OBS ok:" ++ Dump.elem old)
       | .error e => { s with pending := ["OBS err:" ++ Dump.aerr e, "EFF -"] }
     | "pop" =>
       let (es, a', c') := a.popIterate c
@@ -166,6 +176,12 @@ def stepLine (s : ArrState) (line : String) (lineNo : Nat) : ArrState :=
     { s with store := r.st, snapArrs := s.arrs, snapAux := s.aux,
              pending := [(match r.err with | none => "OBS ok" | some _ => "OBS err"),
                          "LOG " ++ (if logParts.isEmpty then "-" else " ".intercalate logParts)] ++ regs ++ ["ENDREG"] }
+  | "REQ" :: rest =>
+    -- a branch the directed stream requires: the MODEL's run of the trace so far must have reported it
+    let t := " ".intercalate rest
+    let s := { s with rep := { s.rep with compared := s.rep.compared + 1 } }
+    if s.rep.tags.any (fun p => p.1 == t) then s
+    else s.note s!"line {lineNo}: required branch never taken by the model: {t}"
   | "CRASH" :: _ =>
     { s with arrs := s.snapArrs, aux := s.snapAux, store := St.fresh s.store.base s.store.alloc, pending := [] }
   | "FULL" :: hs :: rest =>
